@@ -15,8 +15,11 @@ AST (Python lists):
   stmt  ['let', x, e] | ['set', x, e] | ['ex', e] | ['ret', e] | ['print', e] | ['retif', c, e] | ['yield', e]
       | ['if', c, [..], [..]] | ['loop', i, n, [..]] | ['docatch', [..], [..]] | ['throwif', c, text]
       | ['letb', f, p, pty, rty, [..]]           (f := |p: pty|: rty -> ... end ; the block ends with ['ret', e])
+      | ['throwc', c|None, cls]                  (throw cls("boom") [if c])
+      | ['doc', [..], [cls..], [..]]             (do .. catch cls() .. [catch cls2() ..] end ; same handler per clause)
+      | ['letc', f, [[p, pty]..], rty|None, [cls..]|None, [..]]   (f := |p: pty|: rty ! cls | .. -> ... end)
   main also has ['forin', x, m] (for x in m() println(x.inspect) end)
-  method ['m', name, kind, rt, [stmts]]          kind 'plain' | 'gen'
+  method ['m', name, kind, rt, [stmts]] or ['m', name, kind, rt, [stmts], [cls..]]  (def name: rt ! cls | ..)   kind 'plain' | 'gen'
   program {'methods': [...], 'main': [...]}
 """
 import copy
@@ -26,6 +29,8 @@ import vlib
 
 STREAM = "c12.edits"
 TYPES = ["Int", "String", "Bool"]
+EXC = ["FormatError", "OutOfRangeError", "ZeroDivisionError", "IndexError"]   # unrelated classes under Std::Error
+PROG_EXC = EXC[:3]          # classes used by generated programs; IndexError is kept for inserted closures
 MODEL_TY = {"Int": "int", "String": "str", "Bool": "bool", "nil": "nil"}
 
 
@@ -90,9 +95,33 @@ def ps(s, ind):
         return [p + "do"] + pb(s[1], ind + 1) + [p + "catch String() as err"] + pb(s[2], ind + 1) + [p + "end"]
     if k == "letb":
         return [p + "%s := |%s: %s|: %s ->" % (s[1], s[2], s[3], s[4])] + pb(s[5], ind + 1) + [p + "end"]
+    if k == "throwc":
+        return [p + "throw %s(\"boom\")" % s[2] + (" if " + pe(s[1]) if s[1] is not None else "")]
+    if k == "doc":
+        out = [p + "do"] + pb(s[1], ind + 1)
+        for cls in s[2]:
+            out += [p + "catch %s()" % cls] + pb(s[3], ind + 1)
+        return out + [p + "end"]
+    if k == "letc":
+        return [p + "%s := %s" % (s[1], closure_head(s[2], s[3], s[4]))] + pb(s[5], ind + 1) + [p + "end"]
     if k == "forin":      # main only: consume a generator
         return [p + "for %s in %s()" % (s[1], s[2]), p + "  println(%s.inspect)" % s[1], p + "end"]
     raise ValueError(s)
+
+
+def closure_head(params, rty, thr):
+    if not params and rty is None and thr is None:
+        return "->"
+    h = "|" + ", ".join("%s: %s" % (q, t) for q, t in params) + "|"
+    if rty is not None:
+        h += ": " + rty
+    if thr is not None:
+        h += " ! " + " | ".join(thr)
+    return h + " ->"
+
+
+def mthr(m):
+    return m[5] if len(m) > 5 else []
 
 
 def pb(b, ind, allow_empty=False):
@@ -107,8 +136,9 @@ def pb(b, ind, allow_empty=False):
 def elk_program(prog):
     out = []
     for m in prog["methods"]:
-        _, name, kind, rt, body = m
-        out.append("def %s%s: %s" % ("*" if kind == "gen" else "", name, rt))
+        _, name, kind, rt, body = m[:5]
+        out.append("def %s%s: %s%s" % ("*" if kind == "gen" else "", name, rt,
+                                       " ! " + " | ".join(mthr(m)) if mthr(m) else ""))
         out += pb(body, 1)
         out.append("end")
         out.append("")
@@ -161,8 +191,9 @@ def model_input(prog):
     names = {}
     try:
         ms = []
-        for _, name, kind, rt, body in prog["methods"]:
-            if kind != "plain":
+        for mm in prog["methods"]:
+            _, name, kind, rt, body = mm[:5]
+            if kind != "plain" or mthr(mm):
                 raise NotCore(kind)
             ms.append("(m %s %s %s)" % (mname("@" + name, names), MODEL_TY[rt], " ".join(m_stmt(s, names) for s in body)))
         mn = []
@@ -176,6 +207,77 @@ def model_input(prog):
         return "(prog (methods %s) (main %s))" % (" ".join(ms), " ".join(mn))
     except NotCore:
         return None
+
+
+# ------------------------------------------------------------------ to the model with catch scopes (Model/C12_Scopes.v)
+
+def m2_clos(params, rty, thr, body, names):
+    return "(clos (params %s) (rt %s) (thr %s) %s)" % (
+        " ".join("(%s %s)" % (mname(q, names), MODEL_TY[t]) for q, t in params),
+        MODEL_TY[rty] if rty is not None else "none",
+        " ".join(str(EXC.index(c)) for c in thr) if thr is not None else "none",
+        " ".join(body))
+
+
+def m2_expr(e, names):
+    k = e[0]
+    if k == "lit":
+        return "(lit %s)" % MODEL_TY[e[1]]
+    if k == "var":
+        return "(var %s)" % mname(e[1], names)
+    if k == "clos":
+        return m2_clos([], None, None, [m2_expr(e[1], names)], names)
+    if k == "par":
+        return "(par %s)" % m2_expr(e[1], names)
+    if k == "call":
+        return "(call %s)" % m2_expr(e[1], names)
+    if k == "meth":
+        return "(meth %s)" % mname("@" + e[1], names)
+    raise NotCore(k)
+
+
+def m2_stmt(s, names):
+    k = s[0]
+    if k == "let":
+        return "(%s %s %s)" % ("unused" if s[1].startswith("unused") else "let", mname(s[1], names), m2_expr(s[2], names))
+    if k == "set":
+        return "(set %s %s)" % (mname(s[1], names), m2_expr(s[2], names))
+    if k in ("ex", "print"):         # println(e.inspect): an expression statement as far as the checker model goes
+        return "(ex %s)" % m2_expr(s[1], names)
+    if k == "ret":
+        return "(ret %s)" % m2_expr(s[1], names)
+    if k == "throwc":                # the condition (a comparison of Int locals / literals) cannot produce a diagnostic
+        return "(throw %d)" % EXC.index(s[2])
+    if k == "doc":
+        return "(do (body %s) (catch %s) (handler %s))" % (
+            " ".join(m2_stmt(x, names) for x in s[1]), " ".join(str(EXC.index(c)) for c in s[2]),
+            " ".join(m2_stmt(x, names) for x in s[3]))
+    if k == "letc":
+        return "(%s %s %s)" % ("unused" if s[1].startswith("unused") else "let", mname(s[1], names),
+                               m2_clos(s[2], s[3], s[4], [m2_stmt(x, names) for x in s[5]], names))
+    if k == "letb":
+        return "(%s %s %s)" % ("unused" if s[1].startswith("unused") else "let", mname(s[1], names),
+                               m2_clos([[s[2], s[3]]], s[4], None, [m2_stmt(x, names) for x in s[5]], names))
+    raise NotCore(k)
+
+
+def model_input2(prog):
+    """s-expression for the checker model with catch scopes, or None outside its fragment"""
+    names = {}
+    try:
+        ms = []
+        for mm in prog["methods"]:
+            _, name, kind, rt, body = mm[:5]
+            if kind != "plain":
+                raise NotCore(kind)
+            ms.append("(m %s %s (thr %s) %s)" % (mname("@" + name, names), MODEL_TY[rt],
+                                                 " ".join(str(EXC.index(c)) for c in mthr(mm)),
+                                                 " ".join(m2_stmt(x, names) for x in body)))
+        mn = [m2_stmt(x, names) for x in prog["main"]]
+        return "(prog2 (methods %s) (main %s))" % (" ".join(ms), " ".join(mn))
+    except NotCore:
+        return None
+
 
 
 # ------------------------------------------------------------------ generator
@@ -353,7 +455,169 @@ class Gen:
         return ["m", "m%d" % idx, kind, rt, body]
 
 
+class ScopedGen:
+    """programs inside the fragment of Model/C12_Scopes.v: methods with throw signatures, `throw`, do/catch (one or
+    two classes), closures with parameters / declared return type / declared or inferred throw type, calls of throwing
+    methods and closures - generated well-typed by tracking the catch-scope stack"""
+
+    def __init__(self, rng):
+        self.r = rng
+        self.n = 0
+        self.dist = {}
+
+    count = Gen.count
+    fresh = Gen.fresh
+    lit = Gen.lit
+
+    @staticmethod
+    def covered(thr, scopes):
+        return not thr or any(set(thr) <= set(sc) for sc in scopes)
+
+    def classes(self, lo=1):
+        k = self.r.range(lo, 2)
+        cs = list(PROG_EXC)
+        self.r.shuffle(cs)
+        return sorted(cs[:k])
+
+    def expr(self, ty, env, methods, scopes, depth, thrown=None):
+        """thrown: when a list, throwing callees need not be covered - their classes are appended (inferring closure)"""
+        r = self.r
+        c = r.below(100)
+        ok = lambda thr: thrown is not None or self.covered(thr, scopes)
+        vars_ = [x for x, t in env if t == ty]
+        fns = [(x, t) for x, t in env if isinstance(t, tuple) and t[0] == "fn" and t[1] == ty and ok(t[2])]
+        ms = [m for m in methods if m[3] == ty and ok(mthr(m))]
+        tms = [m for m in ms if mthr(m)]
+        if c < 22 and vars_:
+            self.count("var")
+            return ["var", r.choice(vars_)]
+        if c < 40 and fns:
+            f, t = r.choice(fns)
+            self.count("call_throwing_closure" if t[2] else "call")
+            if thrown is not None and not self.covered(t[2], scopes):
+                thrown += t[2]
+            return ["call", ["var", f]]
+        if c < 62 and ms:
+            m = r.choice(tms) if tms and r.chance(2, 3) else r.choice(ms)
+            self.count("call_throwing_method" if mthr(m) else "meth")
+            if thrown is not None and not self.covered(mthr(m), scopes):
+                thrown += mthr(m)
+            return ["meth", m[1]]
+        if c < 68 and depth > 0:
+            self.count("par")
+            return ["par", self.expr(ty, env, methods, scopes, depth - 1, thrown)]
+        return self.lit(ty)
+
+    def cond(self, env):
+        iv = [x for x, t in env if t == "Int"]
+        if iv and self.r.chance(2, 3):
+            return ["bin", self.r.choice(["<", ">"]), ["var", self.r.choice(iv)], self.lit("Int")]
+        return ["bin", self.r.choice(["<", ">"]), self.lit("Int"), self.lit("Int")]
+
+    def block(self, env, methods, scopes, n, depth, thrown=None):
+        r = self.r
+        out = []
+        for _ in range(n):
+            c = r.below(100)
+            if c < 24:
+                x, ty = self.fresh(), r.choice(TYPES)
+                self.count("let")
+                out.append(["let", x, self.expr(ty, env, methods, scopes, 1, thrown)])
+                env.append((x, ty))
+            elif c < 32:
+                x, ty = self.fresh(), r.choice(TYPES)
+                th = []
+                self.count("let_closure")
+                out.append(["let", x, ["clos", self.expr(ty, env, methods, [], 1, th)]])
+                env.append((x, ("fn", ty, sorted(set(th)))))
+            elif c < 38:
+                vs = [(x, t) for x, t in env if t in TYPES and x.startswith("v")]      # locals, not parameters
+                if vs:
+                    x, t = r.choice(vs)
+                    self.count("set")
+                    out.append(["set", x, self.expr(t, env, methods, scopes, 1, thrown)])
+            elif c < 45:
+                self.count("print")
+                out.append(["print", self.expr(r.choice(TYPES), env, methods, scopes, 1, thrown)])
+            elif c < 58:
+                live = sorted(set(x for sc in scopes for x in sc))
+                if live:
+                    self.count("throw")
+                    out.append(["throwc", self.cond(env), r.choice(live)])
+                elif thrown is not None and r.chance(1, 2):
+                    cls = r.choice(PROG_EXC)
+                    thrown.append(cls)
+                    self.count("throw_inferred")
+                    out.append(["throwc", self.cond(env), cls])
+            elif c < 76 and depth > 0:
+                cs = self.classes()
+                self.count("docatch")
+                body = self.block(list(env), methods, scopes + [cs], r.range(1, 3), depth - 1, thrown)
+                if r.chance(3, 4):
+                    body.insert(r.below(len(body) + 1), ["throwc", self.cond(env), r.choice(cs)])
+                handler = [["print", ["lit", "String", '"caught"']]]
+                if r.chance(1, 3):
+                    handler = self.block(list(env), methods, scopes, 1, 0, thrown) + handler
+                out.append(["doc", body, cs, handler])
+            elif c < 92:
+                f = self.fresh("f")
+                params = [[self.fresh("p"), r.choice(TYPES)]] if r.chance(1, 2) else []
+                rty = r.choice(TYPES)
+                declared_rt = r.chance(1, 2)
+                thr = self.classes() if r.chance(3, 5) else None
+                inner = list(env) + [(q, t) for q, t in params]
+                th = [] if thr is None else None
+                body = self.block(inner, methods, [thr] if thr else [], r.range(0, 2), min(depth, 1), th)
+                val = self.expr(rty, inner, methods, [thr] if thr else [], 1, th)
+                body.append(["ret", val] if declared_rt and r.chance(1, 2) else ["ex", val])
+                self.count("closure_throws" if thr else "closure_block")
+                out.append(["letc", f, params, rty if declared_rt else None, thr, body])
+                if not params:
+                    env.append((f, ("fn", rty, thr if thr is not None else sorted(set(th)))))
+        return out
+
+    def method(self, idx, methods):
+        r = self.r
+        rt = r.choice(TYPES)
+        thr = self.classes() if r.chance(3, 5) else []
+        env = []
+        scopes = [thr] if thr else []
+        body = self.block(env, methods, scopes, r.range(2, 5), 2)
+        body.append(["ret", self.expr(rt, env, methods, scopes, 1)])
+        self.count("method_throws" if thr else "method")
+        return ["m", "m%d" % idx, "plain", rt, body, thr]
+
+
+def gen_scoped(rng):
+    g = ScopedGen(rng)
+    methods = []
+    for i in range(rng.range(1, 3)):
+        methods.append(g.method(i, methods))
+    main = []
+    for m in methods:
+        if mthr(m):
+            main.append(["doc", [["print", ["meth", m[1]]]], mthr(m), [["print", ["lit", "String", '"caught"']]]])
+        else:
+            main.append(["print", ["meth", m[1]]])
+    prog = {"methods": methods, "main": main}
+    bad = None
+    if rng.chance(1, 5):
+        m = rng.choice(methods)
+        free = [c for c in PROG_EXC if c not in mthr(m)]
+        if free and rng.chance(2, 3):
+            m[4].insert(rng.below(len(m[4])), ["throwc", g.cond([]), rng.choice(free)])
+            bad = "uncaught-throw"
+        else:
+            bad = inject_error(rng, prog)
+    g.dist["scoped_program"] = 1
+    if bad:
+        g.dist["injected_error:" + bad] = 1
+    return prog, True, g.dist
+
+
 def gen_program(rng, idx):
+    if idx % 3 == 1:
+        return gen_scoped(rng)
     core = idx % 3 == 0
     g = Gen(rng, core)
     methods = []
@@ -406,12 +670,63 @@ def blocks_of(body, acc, where):
         elif k == "docatch":
             blocks_of(s[1], acc, "do")
             blocks_of(s[2], acc, "catch")
-        elif k == "letb":
+        elif k in ("letb", "letc"):
             blocks_of(s[5], acc, "closure")
+        elif k == "doc":
+            blocks_of(s[1], acc, "docatch")
+            blocks_of(s[3], acc, "handler")
 
 
-def follows(body, block, pos):
-    """kind of the first return / yield of the METHOD that comes after the insertion point in program order"""
+def has_tcall(st, throwing):
+    """does the statement itself (not its nested blocks) call a method / closure known to throw"""
+    ex = []
+    if st[0] in ("let", "set"):
+        sub_exprs(st[2], ex)
+    elif st[0] in ("ex", "ret", "print"):
+        sub_exprs(st[1], ex)
+    return any((e[0] == "meth" and e[1] in throwing) or (e[0] == "call" and e[1][0] == "var" and e[1][1] in throwing)
+               for e in ex)
+
+
+def sub_blocks(st):
+    k = st[0]
+    if k == "if":
+        return [st[2], st[3]]
+    if k == "loop":
+        return [st[3]]
+    if k == "docatch":
+        return [st[1], st[2]]
+    if k == "doc":
+        return [st[1], st[3]]
+    if k in ("letb", "letc"):
+        return [st[5]]
+    return []
+
+
+def throwing_names(prog):
+    """names of methods / closure locals whose call may need a catch scope (over-approximation, used for labels only)"""
+    out = set(m[1] for m in prog["methods"] if mthr(m))
+
+    def throws_inside(b):
+        return any(x[0] in ("throwc", "throwif") or has_tcall(x, out) or any(throws_inside(sb) for sb in sub_blocks(x))
+                   for x in b)
+
+    def walk(b):
+        for st in b:
+            if st[0] == "letc" and (st[4] or throws_inside(st[5])):
+                out.add(st[1])
+            if st[0] == "let" and st[2][0] == "clos" and has_tcall(["ex", st[2][1]], out):
+                out.add(st[1])
+            for sb in sub_blocks(st):
+                walk(sb)
+    for m in prog["methods"]:
+        walk(m[4])
+    return out
+
+
+def follows(body, block, pos, throwing=()):
+    """kind of the first return / yield / throw / throwing call of the METHOD that comes after the insertion point
+    in program order (the context registers such a statement reads: returnType resp. the catch-scope stack)"""
     toks = []
 
     def walk(b, in_closure):
@@ -421,6 +736,10 @@ def follows(body, block, pos):
             k = st[0]
             if not in_closure and k in ("ret", "retif", "yield"):
                 toks.append("yield" if k == "yield" else "return")
+            if not in_closure and k in ("throwc", "throwif"):
+                toks.append("throw")
+            elif not in_closure and throwing and has_tcall(st, throwing):
+                toks.append("tcall")
             if k == "if":
                 walk(st[2], in_closure)
                 walk(st[3], in_closure)
@@ -429,8 +748,11 @@ def follows(body, block, pos):
             elif k == "docatch":
                 walk(st[1], in_closure)
                 walk(st[2], in_closure)
-            elif k == "letb":
+            elif k in ("letb", "letc"):
                 walk(st[5], True)
+            elif k == "doc":
+                walk(st[1], in_closure)
+                walk(st[3], in_closure)
         if b is block and pos == len(b):
             toks.append("HERE")
     walk(body, False)
@@ -476,9 +798,16 @@ def stmt_exprs(s, acc):
         for b in (s[1], s[2]):
             for x in b:
                 stmt_exprs(x, acc)
-    elif k == "letb":
+    elif k in ("letb", "letc"):
         for x in s[5]:
             stmt_exprs(x, acc)
+    elif k == "throwc":
+        if s[1] is not None:
+            sub_exprs(s[1], acc)
+    elif k == "doc":
+        for b in (s[1], s[3]):
+            for x in b:
+                stmt_exprs(x, acc)
 
 
 def rename_in(x, old, new):
@@ -494,7 +823,7 @@ def rename_in(x, old, new):
 def declared(body, acc):
     for s in body:
         k = s[0]
-        if k in ("let", "letb"):
+        if k in ("let", "letb", "letc"):
             acc.append(s[1])
         if k == "if":
             declared(s[2], acc)
@@ -504,34 +833,75 @@ def declared(body, acc):
         elif k == "docatch":
             declared(s[1], acc)
             declared(s[2], acc)
+        elif k == "doc":
+            declared(s[1], acc)
+            declared(s[3], acc)
+
+
+TOUCHES = {"value": "", "value-string": "", "closure": "r", "closure-block": "r", "closure-throws": "rc",
+           "closure-throws-bare": "rc", "closure-docatch": "rc", "closure-nested": "rc", "closure-infers-throw": "rc"}
+READS = {"return": "r", "yield": "r", "throw": "c", "tcall": "c", "none": ""}
+INITS = list(TOUCHES)
+
+
+def unused_stmt(iname, pos, salt):
+    """the inserted statement: an unused local bound to a value or to a closure literal of the given kind"""
+    # mostly a class the program does not use (so that it differs from every live catch scope), sometimes one it may use
+    c1 = PROG_EXC[salt % 3] if salt % 4 == 0 else "IndexError"
+    c2 = "IndexError" if c1 != "IndexError" else PROG_EXC[(salt + 1) % 3]
+    name = "unused_%d" % pos
+    never = ["bin", ">", ["lit", "Int", "1"], ["lit", "Int", "2"]]
+    one = ["ex", ["lit", "Int", "1"]]
+    if iname == "value":
+        return ["let", name, ["lit", "Int", "41"]]
+    if iname == "value-string":
+        return ["let", name, ["lit", "String", '"unused"']]
+    if iname == "closure":
+        return ["let", name, ["clos", ["lit", "Int", "1"]]]
+    if iname == "closure-block":
+        return ["letb", "unused_f", "q", "Int", "Int", [["ret", ["var", "q"]]]]
+    if iname == "closure-throws":          # |q: String|: String ! C -> q
+        return ["letc", name, [["q", "String"]], "String", [c1], [["ex", ["var", "q"]]]]
+    if iname == "closure-throws-bare":     # ||! C -> throw C(..) if ..; 1
+        return ["letc", name, [], None, [c1], [["throwc", never, c1], one]]
+    if iname == "closure-docatch":         # -> do throw C(..) if ..; 1 catch C() 2 end
+        return ["letc", name, [], None, None, [["doc", [["throwc", never, c1], one], [c1], [["ex", ["lit", "Int", "2"]]]]]]
+    if iname == "closure-nested":          # -> (g := |q: Int|: Int ! C | D -> throw D(..) if ..; q); 3
+        return ["letc", name, [], None, None,
+                [["letc", "unused_g", [["q", "Int"]], "Int", sorted([c1, c2]), [["throwc", never, c2], ["ex", ["var", "q"]]]],
+                 ["ex", ["lit", "Int", "3"]]]]
+    if iname == "closure-infers-throw":    # -> throw C(..) if ..; 1     (throw type inferred)
+        return ["letc", name, [], None, None, [["throwc", never, c1], one]]
+    raise ValueError(iname)
 
 
 def all_edits(prog):
-    """-> list of (label, detail, thunk) ; thunk() returns the edited deep copy"""
+    """-> list of (label, detail, thunk, prio) ; thunk() returns the edited deep copy; prio = the inserted initialiser
+    touches a context register (returnType / catch-scope stack) that a later statement of the method reads"""
     edits = []
-    inits = [("value", lambda: ["lit", "Int", "41"]),
-             ("closure", lambda: ["clos", ["lit", "Int", "1"]]),
-             ("value-string", lambda: ["lit", "String", '"unused"']),
-             ("closure-block", None)]
-    for mi, m in enumerate(prog["methods"]):
+    throwing = throwing_names(prog)
+    bodies = [("methods", mi, m[4], "method" + ("-throws" if mthr(m) else "")) for mi, m in enumerate(prog["methods"])]
+    bodies.append(("main", None, prog["main"], "main"))
+    for sect, mi, body, top in bodies:
         acc = []
-        blocks_of(m[4], acc, "method")
+        blocks_of(body, acc, top)
         for bi, (b, where) in enumerate(acc):
-            limit = len(b) + (1 if where == "loop" else 0)
+            limit = len(b) + (1 if where in ("loop", "main") else 0)
             for pos in range(limit):
-                fol = follows(m[4], b, pos)
-                for iname, mk in inits:
-                    def thunk(mi=mi, bi=bi, pos=pos, iname=iname, mk=mk):
+                fol = follows(body, b, pos, throwing)
+                for iname in INITS:
+                    if sect == "main" and iname in ("value-string", "closure-block", "closure-infers-throw"):
+                        continue
+
+                    def thunk(sect=sect, mi=mi, bi=bi, pos=pos, iname=iname):
                         p = copy.deepcopy(prog)
                         acc2 = []
-                        blocks_of(p["methods"][mi][4], acc2, "method")
-                        if mk is None:
-                            st = ["letb", "unused_f", "q", "Int", "Int", [["ret", ["var", "q"]]]]
-                        else:
-                            st = ["let", "unused_%d" % pos, mk()]
-                        acc2[bi][0].insert(pos, st)
+                        blocks_of(p["main"] if sect == "main" else p["methods"][mi][4], acc2, "x")
+                        acc2[bi][0].insert(pos, unused_stmt(iname, pos, pos + bi))
                         return p
-                    edits.append(("insert", "%s:in-%s:before-%s" % (iname, where, fol), thunk))
+                    prio = bool(set(TOUCHES[iname]) & set(READS[fol]))
+                    edits.append(("insert", "%s:in-%s:before-%s" % (iname, where, fol), thunk, prio))
+    for mi, m in enumerate(prog["methods"]):
         names = []
         declared(m[4], names)
         for x in names:
@@ -539,7 +909,7 @@ def all_edits(prog):
                 p = copy.deepcopy(prog)
                 rename_in(p["methods"][mi][4], x, "renamed_" + x)
                 return p
-            edits.append(("rename", "local", thunk))
+            edits.append(("rename", "local", thunk, False))
         ex = []
         for s in m[4]:
             stmt_exprs(s, ex)
@@ -553,15 +923,7 @@ def all_edits(prog):
                 inner = list(e)
                 e[:] = ["par", inner]
                 return p
-            edits.append(("paren", ex[ei][0], thunk))
-    # unused local in the top-level statements (any position, the end included)
-    for pos in range(len(prog["main"]) + 1):
-        for iname, mk in inits[:2]:
-            def thunk(pos=pos, mk=mk):
-                p = copy.deepcopy(prog)
-                p["main"].insert(pos, ["let", "unused_%d" % pos, mk()])
-                return p
-            edits.append(("insert", "%s:in-main:before-none" % iname, thunk))
+            edits.append(("paren", ex[ei][0], thunk, False))
     if len(prog["methods"]) > 1:
         n = len(prog["methods"])
         for rot in range(1, n):
@@ -569,13 +931,13 @@ def all_edits(prog):
                 p = copy.deepcopy(prog)
                 p["methods"] = p["methods"][rot:] + p["methods"][:rot]
                 return p
-            edits.append(("reorder", "rotate", thunk))
+            edits.append(("reorder", "rotate", thunk, False))
 
         def rev():
             p = copy.deepcopy(prog)
             p["methods"].reverse()
             return p
-        edits.append(("reorder", "reverse", rev))
+        edits.append(("reorder", "reverse", rev, False))
     return edits
 
 
@@ -599,39 +961,53 @@ def run_family(ctx, elk, m, fams, tag, budget):
     rng = ctx.rng(STREAM + ".edits." + tag)
     progs, meta = [], {}
     model_in = {}
+    seen_global = set()
     for pid, prog, core in fams:
         progs.append((pid, elk_program(prog)))
         meta[pid] = (pid, "original", "", prog, core)
         edits = all_edits(prog)
         if budget is not None and len(edits) > budget:
-            # keep one of every (label, detail) class first, fill up at random
-            # round-robin over the edit kinds; inside a kind, unseen (kind, detail) classes first
+            # round-robin over the edit kinds; inside a kind: first the classes (kind, detail) in which the inserted
+            # initialiser touches a context register that a later statement reads and which no earlier program of the
+            # run has covered, then the other such classes, then classes unseen in this program, then the rest
             rng.shuffle(edits)
             groups = {}
             for e in edits:
                 groups.setdefault(e[0], []).append(e)
             for lab in groups:
-                seen, first, rest = set(), [], []
+                seen, tiers = set(), ([], [], [], [])
                 for e in groups[lab]:
-                    (first if e[1] not in seen else rest).append(e)
+                    if e[1] in seen:
+                        tiers[3].append(e)
+                    elif e[3] and e[1] not in seen_global:
+                        tiers[0].append(e)
+                    elif e[3]:
+                        tiers[1].append(e)
+                    else:
+                        tiers[2].append(e)
                     seen.add(e[1])
-                groups[lab] = first + rest
+                groups[lab] = tiers[0] + tiers[1] + tiers[2] + tiers[3]
             picked = []
             while len(picked) < budget and any(groups.values()):
-                for lab in ("insert", "rename", "paren", "reorder", "insert"):
+                for lab in ("insert", "rename", "insert", "paren", "reorder", "insert"):
                     if groups.get(lab) and len(picked) < budget:
                         picked.append(groups[lab].pop(0))
             edits = picked
-        for j, (label, detail, thunk) in enumerate(edits):
+        for e in edits:
+            seen_global.add(e[1])
+        for j, (label, detail, thunk, _prio) in enumerate(edits):
             ep = thunk()
             eid = "%s_e%d" % (pid, j)
             progs.append((eid, elk_program(ep)))
             meta[eid] = (pid, label, detail, ep, core)
     for eid, (pid, label, detail, p, core) in meta.items():
         if core:
-            mi = model_input(p)
+            mi = model_input(p)          # Model/C12_Checker.v
             if mi is not None:
                 model_in[eid] = mi
+            mi = model_input2(p)         # Model/C12_Scopes.v (a superset of the fragment)
+            if mi is not None:
+                model_in[eid + "~s"] = mi
     exp = {}
     if model_in:
         rc, exp, mout = vlib.run_model(m, list(model_in), model_in)
@@ -676,21 +1052,31 @@ def run_family(ctx, elk, m, fams, tag, budget):
             elif o[0] == "A" and o[2] != o0[2]:
                 change = "stdout"
             if change:
-                fails.append((len(srcs[eid]), "%s:%s:%s" % (label, re.sub(r":in-[a-z]+", "", detail), change),
+                fails.append((len(srcs[eid]), "%s:%s:%s" % (label, re.sub(r":in-[a-z-]+", "", detail), change),
                               "edit `%s` (%s) changed the result: original %s, edited %s" % (label, detail, o0[:2], o[:2]),
                               eid, o, o0))
-        if eid in model_in:
-            e = exp.get(eid)
+        for mid, which in ((eid, "checker"), (eid + "~s", "scopes")):
+            if mid not in model_in:
+                continue
+            e = exp.get(mid)
             if e is None or e.startswith("bad-input"):
-                ctx.broke("correspondence %s: model gave no answer for %s (%s)" % (STREAM, model_in[eid], e))
+                ctx.broke("correspondence %s: model gave no answer for %s (%s)" % (STREAM, model_in[mid], e))
                 continue
             st["model_compared"] += 1
             mv = e.split()[0]
+            if which == "scopes":
+                st["model_compared_scopes"] = st.get("model_compared_scopes", 0) + 1
+                cls = e.split()[3]
+                if cls != "-":
+                    k = "inserted_initialiser_in_theorem_class" if cls == "closed" else "inserted_initialiser_outside_theorem_class"
+                    st[k] = st.get(k, 0) + 1
             if o[0] in ("A", "R") and mv != o[0]:
-                has_clos = "(clos" in model_in[eid]
-                fails.append((len(srcs[eid]), "model-verdict:%s:model-%s:elk-%s" % (
-                    "with-closure-literal" if has_clos else "no-closure", mv, o[0]),
-                    "checker model (fixed register handling) says %s, elk says %s %s" % (e, o[0], o[1:]), eid, o, e))
+                mi = model_in[mid]
+                feat = "with-catch-scopes" if ("(throw" in mi or "(do " in mi or re.search(r"\(thr \d", mi)) else \
+                    "with-closure-literal" if "(clos" in mi else "no-closure"
+                fails.append((len(srcs[eid]), "model-verdict:%s:model-%s:elk-%s" % (feat, mv, o[0]),
+                              "checker model %s (fixed register handling) says %s, elk says %s %s" % (which, e, o[0], o[1:]),
+                              eid, o, e))
     fails.sort(key=lambda f: f[0])
     st["mismatches"] = len(fails)
     for sz, key, what, eid, o, other in fails:
